@@ -284,6 +284,11 @@ func (r *caseRun) buildCollAnn(ann string, i, j int, onCollection bool) *nject.C
 			items = append(items, x)
 		}
 	}
+	// derivations from the (annotated) members and sub-collections are made and thrown away in both forms: an
+	// annotation of an already annotated collection must still be a copy
+	for q, it := range items {
+		apiNoise(it, uint64(r.c.Seed)*131+uint64(q), "c")
+	}
 	c := nject.Sequence("c", items...)
 	ids := nject.VerifIDs(c)
 	r.idOf = make(map[int32]int)
@@ -293,6 +298,72 @@ func (r *caseRun) buildCollAnn(ann string, i, j int, onCollection bool) *nject.C
 		}
 	}
 	return c
+}
+
+// buildCollDir: every maximal run of adjacent providers that carry the same named-edit directive is put into a
+// sub-collection (of the same name as the whole list, so that the unnamed ones keep their origin) and the directive
+// is applied to that collection instead of to each member.
+func (r *caseRun) buildCollDir() *nject.Collection {
+	ps := r.c.Provs
+	var items []any
+	for k := 0; k < len(ps); {
+		p := ps[k]
+		if p.Replace == "" && p.Before == "" && p.After == "" {
+			items = append(items, annotate(p, r.rawProvider(p)))
+			k++
+			continue
+		}
+		j := k
+		var block []any
+		for j < len(ps) && ps[j].Replace == p.Replace && ps[j].Before == p.Before && ps[j].After == p.After {
+			q := ps[j].clone()
+			q.Replace, q.Before, q.After = "", "", ""
+			block = append(block, annotate(q, r.rawProvider(ps[j])))
+			j++
+		}
+		dir := &ProvDesc{Replace: p.Replace, Before: p.Before, After: p.After}
+		items = append(items, annotate(dir, nject.Sequence("c", block...)))
+		k = j
+	}
+	c := nject.Sequence("c", items...)
+	ids := nject.VerifIDs(c)
+	r.idOf = make(map[int32]int)
+	if len(ids) == len(ps) {
+		for k, id := range ids {
+			r.idOf[id] = ps[k].Idx
+		}
+	}
+	return c
+}
+
+// runEditCollPair: a case with named edits, its directives on each member (base) against on sub-collections (C13)
+func runEditCollPair(c *CaseDesc) []string {
+	base := runCaseWith(c.clone(), func(r *caseRun) *nject.Collection { return r.buildGrouped(nil, "flat") })
+	has := false
+	for _, p := range c.Provs {
+		if p.Replace != "" || p.Before != "" || p.After != "" {
+			has = true
+		}
+	}
+	if !has {
+		return base
+	}
+	sb := summarize(base, true)
+	v := runCaseWith(c.clone(), func(r *caseRun) *nject.Collection { return r.buildCollDir() })
+	out := withPair(base, "colldir", v, sb.diff(summarize(v, true)))
+	// names that no directive refers to are given (with Provide) to providers that had none: nobody looks for them
+	c2 := c.clone()
+	h := uint64(c.Seed)*0x9e3779b97f4a7c15 + 12345
+	for _, p := range c2.Provs {
+		h ^= h >> 29
+		h *= 0xbf58476d1ce4e5b9
+		h ^= h >> 32
+		if p.Name == "" && h%2 == 0 {
+			p.Name = fmt.Sprintf("n%d", p.Idx)
+		}
+	}
+	v2 := runCaseWith(c2, func(r *caseRun) *nject.Collection { return r.buildGrouped(nil, "flat") })
+	return withPair(out, "fresh-names", v2, sb.diff(summarize(v2, true)))
 }
 
 func runNeutralPairs(c *CaseDesc, rng *rand.Rand) []string {
